@@ -15,6 +15,10 @@ NA = {
  "C19": "strategy applicability is a pure function of the basis",
 }
 CHECKS = {
+ "C02": dict(engine="histsim", category="exploration", design_ref="DESIGN.md section 3 / C02",
+   text="Seeded search over query histories: a pool of 1-3 classes (classical and mesh bases) is driven through 5-30 operations - counts, enumerations, membership, subclass tests, creation and partial consumption of of_length / up_to_length / first iterators, clear_cache, re-creation from an equal basis in another form, other classes, dropped references and gc - and every response and every iterator prefix is compared with brute-force avoider sets. Sampling of histories, not proof; ten history/compaction/cache mutants are found within the quick budget, three behaviour-preserving refactors stay silent; three genuine defects of the pinned tree are listed as known findings.",
+   note="Trusted: ref/classes.py (naive filter for mesh bases, max-insertion generation cross-checked against it for classical ones, pinned by Catalan / 2^(n-1) / C(n,2)+1 / Baxter). Lengths <= 6-7 (classical) and <= 5-6 (mesh). Order within a level and object identity are not part of the property and are not gated.",
+   technique="deterministic cooperative simulation of operation histories with live iterator tasks and history faults, seeded search, brute-force reference oracle"),
  "C07": dict(engine="threadsim", category="exploration", design_ref="DESIGN.md section 3 / C07",
    text="Seeded search over thread schedules: the real Av code is run by 2-4 real threads under a deterministic baton-passing scheduler that can pre-empt before every bytecode of permuta/perm_sets and owns the lock; every response of every query is compared with a brute-force reference, deadlock / no progress / escaping exceptions are violations, and the shared cache is swept sequentially afterwards. Sampling of schedules, not proof; six lock-breaking mutants are found within the quick budget and four behaviour-preserving lock refactors stay silent.",
    note="Trusted: the brute-force reference in ref/classes.py (pinned by known counting sequences); that a context switch inside a callee outside permuta/perm_sets is equivalent to one just before/after the call; CPython with a GIL (switches only between bytecodes).",
